@@ -6,6 +6,14 @@ From CG Require Import Model.Supergates Gen.Gen_supergates Proofs.SupergatesProo
 Open Scope string_scope.
 
 Ltac hyp := first [eassumption | done].
+(* g is a gate of the supergate made from the node set S of the cone co *)
+Definition gateof (co : circuit) (S : gset string) (g : string) : Prop :=
+  g ∈ S ∧ ∃ k, co !! g = Some k ∧ n_ty k ≠ Input ∧ (is_const (n_ty k) = true ∨ ∃ f, f ∈ n_fi k ∧ f ∈ S).
+Lemma two_in_list (l : list string) a b : NoDup l → a ∈ l → b ∈ l → a ≠ b → 1 < length l.
+Proof.
+  intros Hnd Ha Hb Hab. destruct l as [|x [|y l]]; simpl; [by apply elem_of_nil in Ha| |lia].
+  apply elem_of_list_singleton in Ha, Hb. congruence.
+Qed.
 Lemma le1 (X : gset string) x y : size X ≤ 1 → x ∈ X → y ∈ X → x = y.
 Proof.
   intros Hs Hx Hy. destruct (decide (x = y)) as [|Hne]; [done|]. exfalso.
@@ -290,5 +298,101 @@ Section cross.
       + right. split; [|by apply below_not_oB]. apply elem_of_fanout in Hy as (i & Hi & Hzi).
         assert (z ∈ fanin coA y) as Hzf by (apply elem_of_fanin; eauto). rewrite faninA in Hzf by (by eapply elem_of_dom_2).
         rewrite <- (faninB y HyB) in Hzf. apply elem_of_fanin in Hzf as (j & Hj & Hzj). apply elem_of_fanout. eauto.
+  Qed.
+
+  (* ---- a supergate (r, S) of cone A and a supergate (r', S') of cone B ---- *)
+  Hypothesis Hconst : ∀ n i, L !! n = Some i → is_const (n_ty i) = true → n_fi i = ∅.
+  Hypothesis Hsrc : ∀ n i, L !! n = Some i → n_ty i = Input → n_fi i = ∅.
+  Context (S : gset string) (r' : string) (S' : gset string).
+  Hypothesis HgA : grow_ok oA sdA kidsA (r, S).
+  Hypothesis HgB : grow_ok oB sdB kidsB (r', S').
+
+  Lemma nodeA z : z ∈ dom coA → ∃ k kL, coA !! z = Some k ∧ L !! z = Some kL ∧ n_ty k = n_ty kL ∧ n_fi k = n_fi kL.
+  Proof.
+    intros Hz. pose proof Hz as [k Hk]%elem_of_dom. pose proof Hk as Hk'. apply cone_lookup in Hk' as (_ & kL & HkL & Ht & _).
+    exists k, kL. split; [done|]. split; [done|]. split; [done|]. pose proof (faninA z Hz) as Hf. unfold fanin in Hf. by rewrite Hk, HkL in Hf.
+  Qed.
+  Lemma nodeB z : z ∈ dom coB → ∃ k kL, coB !! z = Some k ∧ L !! z = Some kL ∧ n_ty k = n_ty kL ∧ n_fi k = n_fi kL.
+  Proof.
+    intros Hz. pose proof Hz as [k Hk]%elem_of_dom. pose proof Hk as Hk'. apply cone_lookup in Hk' as (_ & kL & HkL & Ht & _).
+    exists k, kL. split; [done|]. split; [done|]. split; [done|]. pose proof (faninB z Hz) as Hf. unfold fanin in Hf. by rewrite Hk, HkL in Hf.
+  Qed.
+  Lemma member_below g : g ∈ S → below g.
+  Proof.
+    intros Hg. destruct (decide (g = r)) as [|Hne]; [by left|right]. split; [eapply grow_member_dom; hyp|].
+    eapply (member_dominated coA oA rank C1A C2A C3A HavA r S HgA _ g eq_refl); hyp.
+  Qed.
+
+  (* two tree children in cone B imply two tree children in cone A, for a member of S other than the root *)
+  Lemma two_kids_transfer g : g ∈ S → g ≠ r → 1 < length (KB g) → 1 < length (KA g).
+  Proof.
+    intros Hg Hgr Hl. pose proof (member_below g Hg) as Hbel. pose proof (below_dom g Hbel) as HgA'.
+    pose proof (below_coneB g Hbel) as HgBd. pose proof (below_not_oB g Hbel Hgr) as HgoB.
+    assert (g ≠ oA) as HgoA. { intros ->. destruct Hbel as [|[_ Hbad]]; [done|]. by eapply no_sdom_root. }
+    destruct (two_children_operands coB oB rank C1B C2B C3B HavB g HgBd HgoB (cone_bound oB g) Hl) as [[t0 Ht0] Hall].
+    assert (∀ t, t ∈ fanin coB g → t ∈ KA g) as Hkid.
+    { intros t Ht. destruct (C1B g t HgBd Ht) as [HtB _].
+      pose proof (Hall t Ht) as Hid. destruct (ID_Some coB oB t g HtB Hid) as [HgSD _].
+      assert (t ∈ fanin coA g) as HtA by (rewrite faninA by done; by rewrite faninB in Ht).
+      pose proof (below_fanin g t Hbel HtA) as Hbt. destruct (C1A g t HgA' HtA) as [HtAd Hrk].
+      pose proof (domB_domA g t Hbel Hgr Hbt HgSD) as HgSDA.
+      eapply kids_elem; try hyp. split; [done|]. split; [done|]. split.
+      - intros ->. pose proof (rank_le_o coA oA rank C1A C2A g HgA'). lia.
+      - eapply operand_child; hyp. }
+    destruct (decide (size (fanin coB g) ≤ 1)) as [Hs1|Hs2].
+    - exfalso. destruct (kids_two coB oB rank C1B C2B C3B HavB g Hl) as (c & c' & Hne & Hc & Hc').
+      eapply kids_elem in Hc as (_ & ? & _ & ?); try hyp. eapply kids_elem in Hc' as (_ & ? & _ & ?); try hyp.
+      apply Hne. eapply (single_operand_child coB oB rank C1B C2B C3B HavB g c c'); hyp.
+    - assert (∃ t1, t1 ∈ fanin coB g ∧ t1 ≠ t0) as (t1 & Ht1 & Hne).
+      { assert (fanin coB g = {[t0]} ∪ fanin coB g ∖ {[t0]}) as E by (apply union_difference_L; set_solver).
+        assert (0 < size (fanin coB g ∖ {[t0]})) as Hpos.
+        { rewrite E, size_union, size_singleton in Hs2 by set_solver. lia. }
+        apply size_pos_elem_of in Hpos as [t1 Ht1]. exists t1. set_solver. }
+      eapply (two_in_list _ t0 t1); [eapply kids_nodup; hyp|by apply Hkid|by apply Hkid|done].
+  Qed.
+
+  (* if the root r is a gate of (r', S') then every gate of (r, S) is a gate of (r', S') *)
+  Lemma gates_transfer : gateof coB S' r → ∀ m g, rank r - rank g = m → gateof coA S g → gateof coB S' g.
+  Proof.
+    intros Hroot_gate m. induction (lt_wf m) as [m _ IH]. intros g Hm [Hg (kA & HkA & HtyA & HopA)].
+    destruct (decide (g = r)) as [->|Hgr]; [done|].
+    assert (g ∈ dom coA) as HgAd by (by eapply elem_of_dom_2).
+    (* g feeds a member w of S, which is a gate of (r, S), hence of (r', S'); so g is a member of S' *)
+    destruct (member_fanout_inside coA oA rank C1A C2A C3A HavA r S g HgA Hg Hgr) as (w & Hw & Hgw).
+    assert (w ∈ dom coA) as HwAd by (eapply grow_member_dom; hyp).
+    destruct (nodeA w HwAd) as (kw & kwL & Hkw & HkwL & Htw & Hfw).
+    assert (g ∈ n_fi kwL) as Hgfi. { unfold fanin in Hgw. rewrite Hkw in Hgw. simpl in Hgw. by rewrite Hfw in Hgw. }
+    assert (n_ty kwL ≠ Input) as HwI. { intros E. rewrite (Hsrc w kwL HkwL E) in Hgfi. by apply elem_of_empty in Hgfi. }
+    assert (is_const (n_ty kwL) = false) as Hwc.
+    { destruct (is_const (n_ty kwL)) eqn:E; [|done]. rewrite (Hconst w kwL HkwL E) in Hgfi. by apply elem_of_empty in Hgfi. }
+    assert (gateof coA S w) as HwgA.
+    { split; [done|]. exists kw. split; [done|]. split; [by rewrite Htw|]. right. exists g. split; [by rewrite Hfw|done]. }
+    destruct (C1A w g HwAd Hgw) as [_ Hrk]. pose proof (member_rank coA oA rank C1A C2A C3A HavA r S w HgA Hw) as Hrw.
+    destruct (IH (rank r - rank w) ltac:(lia) w eq_refl HwgA) as [HwS' (kwB & HkwB & _ & HopB)].
+    assert (w ∈ dom coB) as HwBd by (by eapply elem_of_dom_2).
+    destruct (nodeB w HwBd) as (kwB' & kwL' & HkwB' & HkwL' & HtwB & HfwB).
+    assert (kwB' = kwB) as -> by congruence. assert (kwL' = kwL) as -> by congruence.
+    destruct HopB as [Hc|(f0 & Hf0 & Hf0S')]; [rewrite HtwB in Hc; congruence|].
+    assert (g ∈ S') as HgS'.
+    { eapply (grown_closed coB oB rank C1B C2B C3B HavB r' S' w f0 g HgB HwS' (cone_bound oB w)).
+      - unfold fanin. by rewrite HkwB.
+      - done.
+      - unfold fanin. rewrite HkwB. simpl. by rewrite HfwB. }
+    assert (g ∈ dom coB) as HgBd by (eapply grow_member_dom; hyp).
+    destruct (nodeA g HgAd) as (kA' & kL & HkA' & HkL & HtA & HfA). assert (kA' = kA) as -> by congruence.
+    destruct (nodeB g HgBd) as (kB & kL' & HkB & HkL' & HtB & HfB). assert (kL' = kL) as -> by congruence.
+    split; [done|]. exists kB. split; [done|]. split; [congruence|].
+    destruct HopA as [Hc|(f & Hf & HfS)]; [left; congruence|].
+    destruct (decide (set_Exists (λ f', f' ∈ S') (n_fi kB))) as [(f' & Hf' & Hf'S)|Hnone]; [right; eauto|]. exfalso.
+    assert (f ∈ fanin coB g) as HfB'. { unfold fanin. rewrite HkB. simpl. rewrite HfB, <- HfA. done. }
+    assert (g ≠ r' ∧ 1 < length (KB g)) as [Hgr' HlB].
+    { destruct (decide (g = r')) as [->|Hgr']; [|destruct (decide (1 < length (KB g))) as [|Hnl]; [done|]]; exfalso.
+      - destruct (member_operand_inside coB oB rank C1B C2B C3B HavB r' S' r' f HgB HgS' (cone_bound oB r') HfB') as (f' & Hf' & Hf'S); [by left|].
+        apply Hnone. exists f'. split; [|done]. unfold fanin in Hf'. by rewrite HkB in Hf'.
+      - destruct (member_operand_inside coB oB rank C1B C2B C3B HavB r' S' g f HgB HgS' (cone_bound oB g) HfB') as (f' & Hf' & Hf'S); [by right|].
+        apply Hnone. exists f'. split; [|done]. unfold fanin in Hf'. by rewrite HkB in Hf'. }
+    pose proof (two_kids_transfer g Hg Hgr HlB) as HlA.
+    eapply (frontier_member_no_operand coA oA rank C1A C2A C3A HavA r S g f HgA Hg Hgr HlA (cone_bound oA g)); [|done].
+    unfold fanin. by rewrite HkA.
   Qed.
 End cross.
